@@ -610,6 +610,9 @@ PATCH("c08-benign-constkey-guarded-free", "C08", "c08-constkey-guarded-free-beni
 PATCH("c05-benign-constkey-guarded-free", "C05", "c08-constkey-guarded-free-benign.diff", expect="silent")
 PATCH("c09-benign-copy-setserializer", "C09", "c09-copy-setserializer-benign.diff", expect="silent")
 PATCH("c02-benign-copy-setserializer", "C02", "c09-copy-setserializer-benign.diff", expect="silent")
+PATCH("c03-benign-hex4-fastpath", "C03", "c03-hex4-fastpath-benign.diff", expect="silent")
+PATCH("c01-benign-hex4-fastpath", "C01", "c03-hex4-fastpath-benign.diff", expect="silent")
+PATCH("c04-benign-hex4-fastpath", "C04", "c03-hex4-fastpath-benign.diff", expect="silent")
 M("c11-raw-len-positive-test", "C11", "json_object.c",
   "\tcase json_type_string: return (JC_STRING_C(jso)->len != 0);", "\tcase json_type_string: return (JC_STRING_C(jso)->len > 0);", needle="C11.R7")
 M("c11-benign-len-zero-test", "C11", "json_object.c",
